@@ -36,6 +36,11 @@ pub trait Compiler {
 
     fn compile(&mut self, tir: &AnyTir) -> Result<CompiledTx, Error>;
     fn reduce_op(&self, op: Self::CompilerOp) -> Result<Self::Expression, crate::reduce::Error>;
+
+    /// Forget whatever was learned from earlier compilations (eg: the body used
+    /// to size min-utxo values). Called at the start of each resolution so that
+    /// the outcome doesn't depend on what the instance compiled before.
+    fn reset(&mut self) {}
 }
 
 impl<C> Visitor for C
